@@ -77,22 +77,47 @@ class RemotePickler36(pickle.Pickler):
         listitems = None if not isinstance(obj, list) else obj.__iter__()
         dictitems = None if not isinstance(obj, dict) else obj.items().__iter__()
 
+        # Has the object which holds `obj` announced it (see below)? If not - it is the top-level object, or it sits in a
+        # list/dict/tuple or in an object of a class which does not opt in - nobody prepares a patching entry for it.
+        announced = id(obj) in self._remote_announced
+        self._remote_announced.discard(id(obj))
+        self._remote_seen.add(id(obj))
+
         children_names = []
         if isinstance(state, dict):
             state = OrderedDict(state)
             for key, value in state.items():
-                if RemotePickler36.subject_to_custom_reduce(value):
+                # only the first occurrence of an object is serialised (and restored), later ones are references
+                if RemotePickler36.subject_to_custom_reduce(value) and id(value) not in self._remote_seen:
+                    self._remote_seen.add(id(value))
+                    self._remote_announced.add(id(value))
                     children_names.append(key)
 
         newargs = (newobj, newargs, children_names)
-        newobj = RemoteState.recreate_obj_and_patch_setstate
+        newobj = RemoteState.recreate_obj_and_patch_setstate if announced else RemoteState.recreate_unannounced_obj_and_patch_setstate
 
         return (newobj, newargs, state, listitems, dictitems)
+
+    def dump(self, obj):
+        # patches given to `loads` are meant for the top-level object
+        if id(obj) not in self._remote_seen:
+            self._remote_seen.add(id(obj))
+            self._remote_announced.add(id(obj))
+        return super().dump(obj)
+
+    def clear_memo(self):
+        self._remote_seen.clear()
+        self._remote_announced.clear()
+        return super().clear_memo()
 
     def __init__(self, *args, remote=True, **kwargs):
         from ..remote_pickle import SupportRemoteGetState
         super().__init__(*args, **kwargs)
         self._remote = remote
+        # ids of the opt-in objects met so far / of those announced by their holder and not serialised yet
+        # (the objects themselves are kept alive by the memo)
+        self._remote_seen = set()
+        self._remote_announced = set()
         # a private dispatch_table replaces copyreg.dispatch_table for this pickler - start from its content
         self.dispatch_table = dyn_dispatch_table(self.remote_reduce, copyreg.dispatch_table) if self._remote else dict(copyreg.dispatch_table)
         for cls in SupportRemoteGetState.supported_classes:
